@@ -1,4 +1,75 @@
-From Clip Require Import base.Geom model.ZErase.
+(* C15 — property theorems (statements only; proofs live in proofs/ZErase.v). *)
+From Coq Require Import ZArith List.
+From Clip Require Import base.Geom model.PathUtils model.ZErase proofs.ZErase.
+Import ListNotations.
+Local Open Scope Z_scope.
+
+(* operator== of the USINGZ point ignores z *)
 Theorem C15_eq_ignores_z : forall a b : pt3, point_eqb3 a b = pt_eqb (erase a) (erase b).
 Proof. intros. reflexivity. Qed.
 Print Assumptions C15_eq_ignores_z.
+
+(* "a library built with USINGZ returns exactly the same x,y solution", on the modelled kernels: the kernels are
+   written once, generically in the point type (model/ZErase.v, Section Gen) and instantiated for both builds;
+   erasing z commutes with each of them, for ALL inputs and ALL z labels (error outcomes included: rmap maps
+   ErrOOB/ErrFuel to themselves). *)
+Theorem C15_erase_commutes_trim_collinear : forall p is_open,
+  trim_collinear2 (map erase p) is_open = rmap (map erase) (trim_collinear_z p is_open).
+Proof. exact trim_collinear_erase. Qed.
+Print Assumptions C15_erase_commutes_trim_collinear.
+
+Theorem C15_erase_commutes_strip_duplicates : forall p closed,
+  strip_duplicates2 (map erase p) closed = rmap (map erase) (strip_duplicates_z p closed).
+Proof. exact strip_duplicates_erase. Qed.
+Print Assumptions C15_erase_commutes_strip_duplicates.
+
+Theorem C15_erase_commutes_minkowski : forall sum pattern path closed,
+  minkowski2 sum (map erase pattern) (map erase path) closed =
+  rmap (map (map erase)) (minkowski_z sum pattern path closed).
+Proof. exact minkowski_erase. Qed.
+Print Assumptions C15_erase_commutes_minkowski.
+
+Theorem C15_erase_commutes_translate : forall p dx dy,
+  map erase (translate_path_z p dx dy) = map (fun v => (px v + dx, py v + dy)) (map erase p).
+Proof. exact translate_path_erase. Qed.
+Print Assumptions C15_erase_commutes_translate.
+
+(* the generic statement behind them: ANY map between point types compatible with operator== and IsCollinear
+   commutes with TrimCollinear (so the result cannot depend on anything == and IsCollinear do not see) *)
+Theorem C15_trim_collinear_parametric :
+  forall (P Q : Type) (f : P -> Q) (eqb1 : P -> P -> bool) (eqb2 : Q -> Q -> bool)
+         (coll1 : P -> P -> P -> bool) (coll2 : Q -> Q -> Q -> bool),
+  (forall a b, eqb2 (f a) (f b) = eqb1 a b) ->
+  (forall a b c, coll2 (f a) (f b) (f c) = coll1 a b c) ->
+  forall p is_open,
+  g_trim_collinear eqb2 coll2 (map f p) is_open = rmap (map f) (g_trim_collinear eqb1 coll1 p is_open).
+Proof. exact @trim_collinear_map. Qed.
+Print Assumptions C15_trim_collinear_parametric.
+
+(* ClipperBase::SetZ: with a callback installed, the z handed to the callback is that of the first coinciding edge
+   end in the order (subject-first): own bot, own top, other bot, other top -- else DefaultZ; the callback receives
+   the edges in that same order; without a callback the point is left untouched *)
+Theorem C15_setz_priority : forall cb dz e1 e2 ip,
+  set_z cb dz e1 e2 ip =
+  match cb with
+  | None => ip
+  | Some f =>
+      let '(a, b) := if negb (e_clip e1) then (e1, e2) else (e2, e1) in
+      f (e_bot a) (e_top a) (e_bot b) (e_top b)
+        (erase ip, first_match dz ip [e_bot a; e_top a; e_bot b; e_top b])
+  end.
+Proof. exact set_z_priority. Qed.
+Print Assumptions C15_setz_priority.
+
+(* partial: the engine, the offsetter and RectClip are not modelled with z; their x,y equality between the two
+   builds and the completeness of SetZ call sites are validated by the two-build differential run and the
+   Z-accounting monitor of checks/C15.py, not proved. *)
+Definition C15_erasure_partial :=
+  (C15_erase_commutes_trim_collinear, C15_erase_commutes_strip_duplicates, C15_erase_commutes_minkowski,
+   C15_erase_commutes_translate, C15_setz_priority).
+
+Example C15_nonvacuous :
+  let p := [mk3 0 0 5; mk3 5 0 6; mk3 10 0 7; mk3 10 10 8; mk3 0 10 9] in
+  trim_collinear_z p false = Ok [mk3 0 0 5; mk3 10 0 7; mk3 10 10 8; mk3 0 10 9]
+  /\ trim_collinear2 (map erase p) false = Ok [(0, 0); (10, 0); (10, 10); (0, 10)].
+Proof. exact erase_nonvacuous. Qed.
